@@ -45,6 +45,8 @@ inductive Expr where
   | and (a b : Expr) | or (a b : Expr)
   | concat (a b : Expr) | contains (a b : Expr) | startsWith (a b : Expr)
   | normalizeSpace (e : Expr)
+  | attrOf (e : Expr) (q : QName)       -- `string((e)/@q)`
+  | attrCount (e : Expr)                -- `count((e)/@*)`
 deriving Repr, Inhabited
 
 inductive Value where
@@ -76,8 +78,8 @@ def Axis.locs : Axis → Loc → List Loc
 /-- node test on a location; `sp` is consulted for `text()` and `node()` only -/
 def Test.accepts (sp : StripFn) (t : Test) (l : Loc) : Bool :=
   match t, l.focus with
-  | .name q, .elem _ (some n) _ => n == q
-  | .nsWild u, .elem _ (some n) _ => n.uri == u
+  | .name q, .elem _ (some n) _ => n.name == q
+  | .nsWild u, .elem _ (some n) _ => n.name.uri == u
   | .anyElem, .elem _ (some _) _ => true
   | .text, .text _ _ => !l.stripped sp
   | .node, _ => !l.stripped sp
@@ -192,6 +194,28 @@ def normSpace (s : String) : String := String.ofList (normSpaceAux s.toList fals
 
 def normSpaceV (sp : StripFn) (v : Option Value) : Option Value := v.map fun v => .str (normSpace (v.toStr sp))
 
+/-- the attributes of the node (attribute axis; only elements have any) -/
+def Loc.attrs (l : Loc) : List (QName × String) :=
+  match l.focus with
+  | .elem _ (some t) _ => t.attrs
+  | _ => []
+
+/-- value of the first attribute named `q` met on the nodes of a node-set in document order -/
+def firstAttr (q : QName) : List Loc → String
+  | [] => ""
+  | x :: xs =>
+    match x.attrs.find? (fun a => a.1 == q) with
+    | some a => a.2
+    | none => firstAttr q xs
+
+def attrOfV (q : QName) : Option Value → Option Value
+  | some (.ns l) => some (.str (firstAttr q l))
+  | _ => none
+
+def attrCountV : Option Value → Option Value
+  | some (.ns l) => some (.num ((l.map fun x => x.attrs.length).sum : Nat))
+  | _ => none
+
 def countV : Option Value → Option Value
   | some (.ns l) => some (.num l.length)
   | _ => none
@@ -201,7 +225,7 @@ def strlenV (sp : StripFn) (v : Option Value) : Option Value := v.map fun v => .
 
 def localNameOf (l : Loc) : String :=
   match l.focus with
-  | .elem _ (some n) _ => n.loc
+  | .elem _ (some n) _ => n.name.loc
   | .pi _ t _ => t
   | _ => ""
 
@@ -265,6 +289,8 @@ def Expr.eval (sp : StripFn) : Expr → Ctx → Option Value
   | .contains a b, c => strOp sp (fun x y => .bool (isSub x.toList y.toList)) (a.eval sp c) (b.eval sp c)
   | .startsWith a b, c => strOp sp (fun x y => .bool (y.toList.isPrefixOf x.toList)) (a.eval sp c) (b.eval sp c)
   | .normalizeSpace e, c => normSpaceV sp (e.eval sp c)
+  | .attrOf e q, c => attrOfV q (e.eval sp c)
+  | .attrCount e, c => attrCountV (e.eval sp c)
 
 /-! ### the correspondence between `D` and the physically stripped `D'` -/
 
